@@ -263,9 +263,9 @@ def run_compound(bufsize, lens, chunk_codes):
     return None
 
 
-BUFS = tiered([1, 3, 4, 8], [1, 2, 3, 4, 5, 6, 7, 8])
-CLENS = tiered([0, 1, 5, 9], [0, 1, 5, 9, 20])
-NCH = tiered(3, 5)
+BUFS = tiered([1, 3, 4, 8], [1, 2, 3, 4, 5, 8])
+CLENS = tiered([0, 1, 5, 9], [0, 1, 9, 20])
+NCH = tiered(3, 4)
 NBUF, NLEN = len(BUFS), len(CLENS)
 
 
